@@ -202,9 +202,9 @@ def serviceStep (st : ServiceSt) (toks : List String) : ServiceSt × String :=
       let res := (i.svc.addEnr r).2
       runOn st x (fun s _ => s.step {} (.addEnr r)) [] (some (if res == .ok then "ok" else "err:add"))
     | _, _ => (st, "noop")
-  | ["sest", x, rec, addr, dir] =>
+  | "sest" :: x :: rec :: addr :: dir :: sfx =>
     match parseRec rec with
-    | some r => runOn st x (fun s o => s.step o (.established r (parseAddr addr) (dir == "i"))) [] none
+    | some r => runOn st x (fun s o => s.step o (.established r (parseAddr addr) (dir == "i"))) sfx none
     | none => (st, "noop")
   | ["srm", x, id] =>
     match getInst st x with
